@@ -69,6 +69,7 @@ func suiteJSON(c *Ctx) {
 		}
 	}
 	jsonSingleColumn(c)
+	jsonWide(c)
 	jsonExportAcrossHandles(c)
 	jsonBloomDense(c)
 	jsonProbes(c)
@@ -408,4 +409,60 @@ func jsonDocState(k eqKind, c *Ctx, doc []byte) string {
 	}
 	s, _ := k.absStr(o)
 	return s + "|" + jsonQueries(k.name, o)
+}
+
+// jsonWide: sketches wider than any slice / batch size an implementation might move rows in (4096),
+// below the unpack limit of the Lua stand-in (~5100): Count-Min and the sketch inside Top-K.
+func jsonWide(c *Ctx) {
+	for _, redis := range []bool{false, true} {
+		cols := uint(4200 + c.rng.Intn(700))
+		h, err := newCMS(2, cols, redis)
+		if err != nil || h == nil {
+			continue
+		}
+		c.rep.Cases++
+		for i := 0; i < 120; i++ {
+			h.Update([]byte(fmt.Sprintf("wide-%d", i)), uint64(1+i%5))
+		}
+		doc, _ := h.Export()
+		k := eqCMS(redis)
+		cp, ierr := k.imp(c, doc)
+		name := fmt.Sprintf("cms(rows=2,cols=%d,redis=%v)", cols, redis)
+		if ierr != nil || cp == nil {
+			c.fail([]string{"C10"}, k.name+"-import-fails", fmt.Sprintf("%s: Import of a wide sketch failed: %v", name, ierr), name)
+			continue
+		}
+		sa, _ := k.absStr(h)
+		sb, _ := k.absStr(cp)
+		ok, _ := k.equals(h, cp)
+		if sa != sb || !ok {
+			c.fail([]string{"C10"}, k.name+"-roundtrip-state", name+": imported wide sketch differs (Equals="+fmt.Sprint(ok)+")", name)
+		}
+		c.branch("wide-sketch")
+		// Top-K over a wide sketch (errorRate 0.0006 -> 4531 columns, one row)
+		t := newTopK(3, 0.0006, 0.5, redis)
+		if t == nil {
+			continue
+		}
+		c.rep.Cases++
+		for i := 0; i < 60; i++ {
+			t.Insert([]byte(fmt.Sprintf("wide-%d", i)), uint64(1+i%7))
+		}
+		tk := eqTopK(redis)
+		tdoc, err := t.Export()
+		if err != nil {
+			continue
+		}
+		tcp, terr := tk.imp(c, tdoc)
+		if terr != nil || tcp == nil {
+			c.fail([]string{"C10"}, tk.name+"-import-fails", fmt.Sprintf("topk over a wide sketch (redis=%v): Import failed: %v", redis, terr), name)
+			continue
+		}
+		ta, _ := tk.absStr(t)
+		tb, _ := tk.absStr(tcp)
+		if ta != tb {
+			c.fail([]string{"C10"}, tk.name+"-roundtrip-state", fmt.Sprintf("topk over a wide sketch (redis=%v): imported copy differs", redis), name)
+		}
+		c.branch("wide-topk")
+	}
 }
